@@ -609,6 +609,21 @@ func (e *Engine) stdStub(full string, c *ast.CallExpr, recv *Value, args []Value
 				return []Value{{tm, sig.Results().At(0).Type()}}, true
 			}
 		}
+	case "encoding/base64.NewEncoder":
+		// "NewEncoder returns a new base64 stream encoder. Data written to the returned writer will be encoded using enc
+		// and then written to w. [...] the caller must Close the returned encoder to flush any partially written blocks."
+		// The encoder is modelled as a view of the underlying abstract writer: its writes and its flush are writes (of
+		// some bytes) to w that may fail; once a write has failed, Write and Close return that error without writing.
+		note(full + ": the encoder writes to the underlying writer; Write/Close report the underlying writer's first error; Close returns nil only if no write failed")
+		if len(args) == 2 {
+			r := e.havocValue("b64enc", sig.Results().At(0).Type())
+			e.assume(st.pc, and(not(eq(sx("i_tid", r.T), "0")), eq(sx("i_val", r.T), e.writerKey(args[1]))))
+			if e.b64enc == nil {
+				e.b64enc = map[string]bool{}
+			}
+			e.b64enc[r.T] = true
+			return []Value{r}, true
+		}
 	case "path.IsAbs":
 		note(full + `: "reports whether the path is absolute" - exactly: it begins with a slash`)
 		arr, off, ln := e.bytesOf(st, args[0])
@@ -879,6 +894,9 @@ func isWriterType(rt string) bool {
 func (e *Engine) ifaceStub(c *ast.CallExpr, se *ast.SelectorExpr, recv Value, args []Value, sig *types.Signature, st *State) ([]Value, bool) {
 	sel := e.pk.Info.Selections[se]
 	rt := types.TypeString(sel.Recv(), nil)
+	if e.b64enc[recv.T] && (se.Sel.Name == "Write" || se.Sel.Name == "Close") {
+		return e.b64Op(c, se.Sel.Name, recv, st), true
+	}
 	if isWriterType(rt) && (se.Sel.Name == "WriteString" || se.Sel.Name == "Write") {
 		return e.writerWrite(c, recv, args[0], st), true
 	}
@@ -982,4 +1000,30 @@ func (e *Engine) declareWriterTheory() {
 		"(assert (forall ((a (Array Int Int)) (i Int) (v Int) (lo Int) (hi Int)) (! (=> (or (<= hi i) (< i lo)) (= (bseq (store a i v) lo hi) (bseq a lo hi))) :pattern ((bseq (store a i v) lo hi)))))",
 		"(assert (forall ((a (Array Int Int)) (i Int) (j Int)) (! (=> (= j (+ i 1)) (= (bseq a i j) (unit (select a i)))) :pattern ((bseq a i j)))))",
 		"(assert (forall ((a (Array Int Int)) (i Int) (j Int) (k Int)) (! (=> (and (<= i j) (<= j k)) (= (cat (bseq a i j) (bseq a j k)) (bseq a i k))) :pattern ((cat (bseq a i j) (bseq a j k))))))")
+}
+
+// b64Op: Write or Close of a base64 stream encoder created by the NewEncoder stub (see there).
+func (e *Engine) b64Op(c *ast.CallExpr, name string, enc Value, st *State) []Value {
+	e.declareWriterTheory()
+	key := sx("i_val", enc.T)
+	outS, fs := "(Array Int BSeq)", "(Array Int Bool)"
+	ho := e.heapGet(st, "W_out", outS)
+	hf := e.heapGet(st, "W_failed", fs)
+	he := e.heapGet(st, "W_err", "(Array Int Ifc)")
+	already := sx("select", hf, key)
+	errv := e.havocValue("b64err", types.Universe.Lookup("error").Type())
+	failedNow := not(eq(sx("i_tid", errv.T), "0"))
+	// after an earlier failure: the same error again, nothing written; otherwise some bytes are written, or the write fails
+	e.assume(st.pc, implies(already, eq(errv.T, sx("select", he, key))))
+	extra := e.fresh("b64out", "BSeq")
+	e.heapSet(st, "W_out", outS, sx("store", ho, key, ite(or(already, failedNow), sx("select", ho, key), sx("cat", sx("select", ho, key), extra))))
+	e.heapSet(st, "W_failed", fs, sx("store", hf, key, or(already, failedNow)))
+	e.heapSet(st, "W_err", "(Array Int Ifc)", sx("store", he, key, ite(already, sx("select", he, key), ite(failedNow, errv.T, sx("select", he, key)))))
+	st.vars[lastWriteErr] = errv
+	if name == "Close" {
+		return []Value{errv}
+	}
+	n := e.havocValue("b64n", types.Typ[types.Int])
+	e.assume(st.pc, e.le(e.izero(), n.T))
+	return []Value{n, errv}
 }
